@@ -7,6 +7,7 @@ each read-only call) + fresh-object twin (the same call issued first on an ident
 import copy
 import hashlib
 import math
+import os
 
 import numpy
 import pandas
@@ -50,7 +51,7 @@ def gen_cases(tier, seed):
                 js = list(range(na)) if (fam == "thermo" or tier != "quick") else [j for j in range(na) if (i + j) % 3 == 0 or abs(i - j) < 6]
                 yield {"kind": "pairs", "family": fam, "i": i, "js": js, "source": src, "seed": r.randrange(1 << 30), "cold": k % 2 == 1}
     for i in range(n):
-        yield {"kind": "history", "seed": r.randrange(1 << 30), "source": ["synthetic", "synthetic", "n77", "model", "co2"][i % 5], "length": r.randint(2, 10), "heavy": i % 8 == 0}
+        yield {"kind": "history", "seed": r.randrange(1 << 30), "source": ["synthetic", "synthetic", "n77", "model", "co2", "modelpa"][i % 6], "length": r.randint(2, 10), "heavy": i % 8 == 0}
 
 
 def run_case(case, ctx):
@@ -84,6 +85,8 @@ def thermo_alphabet():
     out.append(("area_BET", lambda iso: ch.area_BET(iso)))
     out.append(("psd_mesoporous", lambda iso: ch.psd_mesoporous(iso, psd_model="pygaps-DH")["pore_distribution"][:5]))
     out.append(("to_aif", lambda iso: iso.to_aif()))
+    out.append(("psd_dft(internal)", lambda iso: ch.psd_dft(iso)["pore_distribution"][:5]))
+    out.append(("psd_dft(user-kernel-with-unreadable-cell)", lambda iso: ch.psd_dft(iso, kernel=bad_kernel_path())))
     return out
 
 
@@ -153,7 +156,7 @@ def _synthetic(seed, variant=0):
     nd = numpy.interp(pd_, p, n) * 1.04
     df = pandas.DataFrame({"pressure": numpy.concatenate([p, pd_]), "loading": numpy.concatenate([n, nd])})
     df["enthalpy"] = 8 + 12 * numpy.exp(-df["loading"] / 3.0)
-    return pygaps.PointIsotherm(isotherm_data=df, pressure_key="pressure", loading_key="loading", branch=[False] * len(p) + [True] * len(pd_), material=dict(name="verif-c04-%d" % (seed % 5), density=1.3, molar_mass=250.0),
+    return pygaps.PointIsotherm(isotherm_data=df, pressure_key="pressure", loading_key="loading", branch=[False] * len(p) + [True] * len(pd_), material=dict(name="verif-c04-%d" % (seed % 5), **({"density": 1.3, "molar_mass": 250.0} if seed % 2 else {"density": 2, "molar_mass": 250})),
                                 adsorbate=ads, temperature=T, pressure_mode="relative", pressure_unit=None, user="verif", run=3.0, **{k: v for k, v in gen.DEFAULT_UNITS.items() if not k.startswith("pressure")})
 
 
@@ -176,6 +179,40 @@ def _model(seed):
     return pygaps.ModelIsotherm(model=m, material="verif-c04-m", adsorbate="nitrogen", temperature=298.0, **gen.DEFAULT_UNITS)
 
 
+_BAD_KERNEL = []
+
+
+def bad_kernel_path():
+    """A user kernel file (copy of the shipped one) with one unreadable cell: loading it fails part-way."""
+    if not _BAD_KERNEL:
+        import tempfile
+        from pygaps.data import KERNELS
+        lines = open(KERNELS["DFT-N2-77K-carbon-slit"], encoding="utf8").read().splitlines()
+        row = lines[len(lines) // 2].split(",")
+        row[len(row) // 2] = "#DIV/0!"
+        lines[len(lines) // 2] = ",".join(row)
+        d = tempfile.mkdtemp(prefix="pgverif-c04-")
+        path = os.path.join(d, "user-kernel.csv")
+        with open(path, "w", encoding="utf8") as f:
+            f.write("\n".join(lines) + "\n")
+        _BAD_KERNEL.append(path)
+        import atexit
+        import shutil
+        atexit.register(shutil.rmtree, d, True)
+    return _BAD_KERNEL[0]
+
+
+def _model_pa(seed):
+    """A Langmuir / Toth ModelIsotherm in Pa (what enthalpy_sorption_whittaker accepts directly)."""
+    import pygaps
+    from pgverif import models as GM
+    name = ["Langmuir", "Toth"][seed % 2]
+    P = {"Langmuir": {"K": 2.0e-5, "n_m": 5.0}, "Toth": {"K": 3.0e-5, "n_m": 4.0, "t": 0.8}}[name]
+    m = GM.make_model(name, P, pressure_range=(100.0, 8.0e5), loading_range=(0.05, 4.0), rmse=0.01)
+    units = dict(gen.DEFAULT_UNITS, pressure_unit="Pa")
+    return pygaps.ModelIsotherm(model=m, material="verif-c04-mpa", adsorbate="carbon dioxide", temperature=250.0, **units)
+
+
 def _n77(seed):
     from pgverif.checks import c15
     return c15._load(c15.N77[seed % 5])
@@ -195,7 +232,7 @@ def fresh_environment(*isos):
 
 
 def make_object(source, seed):
-    return {"synthetic": lambda: _synthetic(seed, seed), "n77": lambda: _n77(seed), "model": lambda: _model(seed), "co2": lambda: _co2(seed)}[source]()
+    return {"synthetic": lambda: _synthetic(seed, seed), "n77": lambda: _n77(seed), "model": lambda: _model(seed), "co2": lambda: _co2(seed), "modelpa": lambda: _model_pa(seed)}[source]()
 
 
 # ------------------------------------------------------------------ fingerprint
@@ -252,7 +289,7 @@ def _q_accessors(r):
     if kind == "pressure" and r.random() < 0.6:
         kw = r.choice([{"pressure_mode": "absolute", "pressure_unit": "kPa"}, {"pressure_mode": "relative%"}, {"pressure_mode": "relative"}, {"pressure_mode": "absolute", "pressure_unit": "torr"}])
     if kind == "loading" and r.random() < 0.6:
-        kw = r.choice([{"loading_basis": "mass", "loading_unit": "g"}, {"loading_basis": "volume_liquid", "loading_unit": "cm3"}, {"loading_basis": "volume_gas", "loading_unit": "cm3"}, {"loading_basis": "volume_gas", "loading_unit": "l"}, {"loading_unit": "mol"}, {"material_basis": "volume", "material_unit": "cm3"}, {"loading_basis": "fraction"}])
+        kw = r.choice([{"loading_basis": "mass", "loading_unit": "g"}, {"loading_basis": "volume_liquid", "loading_unit": "cm3"}, {"loading_basis": "volume_gas", "loading_unit": "cm3"}, {"loading_basis": "volume_gas", "loading_unit": "l"}, {"loading_unit": "mol"}, {"material_basis": "volume", "material_unit": "cm3"}, {"material_basis": "molar", "material_unit": "mmol"}, {"loading_basis": "fraction"}])
     if r.random() < 0.3:
         kw["limits"] = (0.1, 0.8) if kind == "pressure" else (1.0, 6.0)
 
@@ -422,6 +459,10 @@ def make_query(r, source, heavy, seed):
         pool += ["whittaker", "whittaker", "model_iso", "iast", "iast", "henry"]
     if source == "model":
         pool = ["loading_at", "pressure_at", "spreading", "export", "iast", "adsorbate"]
+    if source == "modelpa":
+        pool = ["whittaker", "whittaker", "loading_at", "pressure_at", "spreading", "export", "adsorbate"]
+    if source == "n77":
+        pool += ["badkernel"]
     k = r.choice(pool)
     if k == "accessors":
         return _q_accessors(r)
@@ -435,6 +476,9 @@ def make_query(r, source, heavy, seed):
         return _q_adsorbate(r)
     if k == "character":
         return _q_character(r, heavy)
+    if k == "badkernel":
+        from pygaps import characterisation as ch
+        return "psd_dft(user-kernel-with-unreadable-cell)", (lambda iso: ch.psd_dft(iso, kernel=bad_kernel_path()))
     if k == "whittaker":
         return _q_whittaker(r)
     if k == "model_iso":
